@@ -181,8 +181,11 @@ def check_property(prop, tier, jobs, seed, t0):
             for v in br["violations"]:
                 hit = None
                 for f in known["findings"]:
-                    if prop in f.get("properties", [prop]) and f.get("bounded") == name and \
-                            all(frag in v["what"] for frag in f.get("detail_contains", [])):
+                    fb = f.get("bounded")
+                    fb = [fb] if isinstance(fb, str) else (fb or [])
+                    if prop in f.get("properties", [prop]) and name in fb and \
+                            all(frag in v["what"] for frag in f.get("what_contains_all", [])) and \
+                            (not f.get("what_contains_any") or any(frag in v["what"] for frag in f["what_contains_any"])):
                         hit = f
                         break
                 if hit is not None:
